@@ -1,3 +1,4 @@
+import math
 import numpy as np
 
 
@@ -9,6 +10,6 @@ def poisson(kmean: float) -> callable:
     """
 
     def p(k: int) -> float:
-        return np.exp(-kmean) * pow(kmean, k) / np.math.factorial(k)
+        return np.exp(-kmean) * pow(kmean, k) / math.factorial(k)
 
     return p
